@@ -46,4 +46,9 @@ GenNext ==
   /\ UNCHANGED finished
 
 GenSpec == GenInit /\ [][GenNext \/ Finish]_gvars
+
+\* targeted emission (Win_HotKeyCollector.cfg, exhaustive run): every transition that enters the
+\* window EvictWindow is printed as one script that ends inside that evictStale
+WinView == vars
+EmitWindow == (~EvictWindow') \/ PrintT("@@WIN " \o ToJson([cap |-> Cap, steps |-> hist']))
 =============================================================================
